@@ -9,7 +9,8 @@
 EXTENDS Features, TLC, Json
 CONSTANTS MaxFields, MaxWeight,        \* exploration bounds
           MinFields, MinWeight,        \* export only file values at least this large (simulation: the dense ones)
-          SynSet, ScopeSet             \* subsets of Syntaxes / Scopes to explore
+          SynSet, ScopeSet,            \* subsets of Syntaxes / Scopes to explore
+          MaxBroken                    \* 0: only Valid file values; 1: also those breaking exactly one resolved-feature rule
 VARIABLE F
 vars == <<F>>
 
@@ -161,18 +162,19 @@ EntryFieldsOf(G) ==
   IN [i \in 1..(2 * Len(ms)) |-> LET k == ms[(i + 1) \div 2] IN
          EntryField(G, G.fields[k], k, IF i % 2 = 1 THEN "key" ELSE "value")]
 
-CaseOf(G) == [syntax |-> G.syntax, edition |-> EditionNumber(G.syntax), weight |-> Weight(G),
+CaseOf(G) == [syntax |-> G.syntax, breaks |-> Broken(G), edition |-> EditionNumber(G.syntax), weight |-> Weight(G),
               fov |-> OvStr(G.fov), ffeat |-> FeatStr(<<G.fov>>, G.syntax),
               enums |-> <<EnumCase(G, "E"), EnumCase(G, "NE")>>,
               msgs |-> MsgsOf(G),
               fields |-> [k \in Idx(G) |-> FieldCase(G, k)],
               efields |-> EntryFieldsOf(G)]
 
-Export == (Valid(F) /\ Len(F.fields) >= MinFields /\ Weight(F) >= MinWeight) => PrintT("CASE " \o ToJson(CaseOf(F)))
+Export == (Len(F.fields) >= MinFields /\ Weight(F) >= MinWeight /\ Core(F) /\ Cardinality(Broken(F)) <= MaxBroken)
+            => PrintT("CASE " \o ToJson(CaseOf(F)))
 
 (* spec-level sanity (checked by TLC on every state; a violation is a machinery error, exit 2) *)
 SpecSane ==
-  Valid(F) => \A k \in Idx(F) : LET s == F.fields[k] IN
+  (Len(F.fields) >= MinFields /\ Weight(F) >= MinWeight /\ Valid(F)) => \A k \in Idx(F) : LET s == F.fields[k] IN
      /\ IsPacked(F, s) => (IsRepeated(s) /\ ~IsMsgTyped(s))
      /\ (CardinalityOf(F, s) = "required") => HasPresence(F, s)
      /\ (Kind(F, s) = "group") => IsMsgTyped(s) /\ ~IsMap(s)
